@@ -100,7 +100,7 @@ func (t *Text) GenerateOutput(textOnly bool) string {
 		}
 
 		srcRoot = domutil.GetParentElement(srcRoot)
-		if dom.TagName(srcRoot) == "body" {
+		if srcRoot == nil || dom.TagName(srcRoot) == "body" {
 			break
 		}
 
